@@ -240,6 +240,9 @@ def run():
     for _ in range(ck.n(6, 30) * (3 if broken else 1)):         # two sort|take blocks in front of a group (F37)
         pg = g.program(n_steps=5, force=["sort", "take", "sort", "take", rng.choice(["group_win", "group_take", "group_agg"])])
         cases.append((pg, [P.gen_instance(rng, max_rows=7, min_rows=6)]))
+    for _ in range(ck.n(14, 80) * (3 if broken else 1)):        # a group nested in a group (F45), by the generator
+        pg = g.program(n_steps=1 + rng.randint(0, 2), force=(["sort"] if rng.random() < 0.4 else []) + ["nested_group"])
+        cases.append((pg, [P.gen_instance(rng, max_rows=7, min_rows=5)]))
     for _fid, pg, inst in E.directed_known(rng):                # one hand-built program per open finding the streams seldom hit
         cases.append((pg, [inst or P.gen_instance(rng, max_rows=7, min_rows=5)]))
     for _lbl, pg in E.directed_fixed():                         # replays of repaired findings: nothing excuses a recurrence
